@@ -208,14 +208,20 @@ func mapJSON(d *adoc.Doc, parent *adoc.Node, v *jval, nums map[*adoc.Node]float6
 	}
 }
 
+// sigDigits counts the digits of the mantissa that carry information: leading
+// zeros never count, trailing zeros count when they follow a decimal point
+// ("1.0" has two digits, "100" one).
 func sigDigits(s string) int {
 	s = strings.TrimPrefix(s, "-")
 	if i := strings.IndexAny(s, "eE"); i >= 0 {
 		s = s[:i]
 	}
+	hasDot := strings.Contains(s, ".")
 	s = strings.Replace(s, ".", "", 1)
 	s = strings.TrimLeft(s, "0")
-	s = strings.TrimRight(s, "0")
+	if !hasDot {
+		s = strings.TrimRight(s, "0")
+	}
 	return len(s)
 }
 
